@@ -42,6 +42,14 @@ CLAIMED.update({
    design='5/C12'),
 })
 
+CLAIMED.update({
+ 'C11': dict(
+   technique='Lean 4 proof: prefix-failure theorem by mutual structural induction for the three readers (generic reader: ReadError; slice full reader and ε-copy reader: error or panic, never a value), header included; tied by cutting real streams at every byte',
+   text='Kernel-checked: prefix_full (every strict prefix of every serialized stream makes deserialize_full return ReadError), prefix_eps (deserialize_eps of the prefix at any base address is an error or a bounds-check panic, never a value), checkHeader_prefix, body-level versions at any stream position. The run truncates real streams at every cut point and compares both modes with the model and the oracle.',
+   note='"does not read outside the prefix" holds in the model by construction (readers only see the prefix); at run time it is exercised on exact-length heap copies, not proved. File-backed entry points (load_full, mmap of the truncated file) are exercised by the C08 loader checks.',
+   design='5/C11'),
+})
+
 NOT_YET = {
 }
 
